@@ -39,7 +39,7 @@ type Case struct {
 	Dest      Field  `json:"dest"`
 	Issuer    Field  `json:"issuer"`
 	Status    string `json:"status"` // success | requester | partial | nested-success | empty | absent
-	Age       string `json:"age"`    // fresh | half | stale | old | future
+	Age       string `json:"age"`    // fresh | half | stale | old | future | far-future
 	Root      string `json:"root"`
 	// DelayH: saml.MaxIssueDelay in hours (0 = 1 h); the ages scale with it.  Prior: the SP value was configured
 	// with this trust configuration when it validated a genuine logout response (Warm), then reconfigured to
@@ -132,6 +132,8 @@ func ageOf(a string) time.Duration {
 		return 10 * delay
 	case "future":
 		return -delay / 2
+	case "far-future":
+		return -delay * 3 / 2
 	}
 	return 0
 }
@@ -409,8 +411,7 @@ func check(c Case) pbt.Result {
 	structural := c.Root == "logout" // the presented bytes are a LogoutResponse document in the right framing
 	valid := structural && genuine && trusted &&
 		c.Dest.Class == "correct" && c.Issuer.Class == "correct" && c.Status == "success" &&
-		(c.Age == "fresh" || c.Age == "half" || c.Age == "future")
-	futureDated := c.Age == "future"
+		(c.Age == "fresh" || c.Age == "half" || c.Age == "future" || c.Age == "far-future")
 
 	res := pbt.Result{Classes: []string{"entry:" + c.Entry, "root:" + c.Root, "signer:" + c.Signer, "transform:" + c.Transform, "age:" + c.Age}}
 	// non-trivial: carries a signature verifying under some key and differs from the accepted baseline
@@ -445,10 +446,9 @@ func check(c Case) pbt.Result {
 		return res
 	}
 	switch {
-	case valid && futureDated:
-		// the property bounds only the past ("no longer than MaxIssueDelay ago"): not judged
-		res.Classes = append(res.Classes, "model:dont-care")
 	case valid:
+		// (a future-dated response was issued "no longer than MaxIssueDelay ago" too: the property bounds the past only,
+		// and a response meeting every clause is reported valid)
 		res.Classes = append(res.Classes, "model:must-accept")
 		if o.err != nil {
 			res.Err = "well-formed, trusted-signed, fresh, addressed logout response reported invalid: " + desc
@@ -513,7 +513,7 @@ func gen0(t *rapid.T) Case {
 		Dest:      genField(t, "dest"),
 		Issuer:    genField(t, "issuer"),
 		Status:    rapid.SampledFrom(append([]string{"success", "success", "success", "success", "success", "success", "success"}, statusNames...)).Draw(t, "status"),
-		Age:       rapid.SampledFrom([]string{"fresh", "fresh", "half", "stale", "old", "future"}).Draw(t, "age"),
+		Age:       rapid.SampledFrom([]string{"fresh", "fresh", "half", "stale", "old", "future", "far-future"}).Draw(t, "age"),
 		Root:      rapid.SampledFrom(roots).Draw(t, "root"),
 	}
 }
@@ -559,7 +559,7 @@ func enumReconfigured(_ string, emit func(Case)) {
 		}
 	}
 	for _, h := range []int{6, 48} {
-		for _, age := range []string{"fresh", "half", "stale", "old", "future"} {
+		for _, age := range []string{"fresh", "half", "stale", "old", "future", "far-future"} {
 			for _, entry := range []string{"form", "redirect", "request-post", "request-get"} {
 				emit(Case{Entry: entry, Trust: "meta1", Signer: "idp", Transform: "none", Dest: ok, Issuer: ok, Status: "success", Age: age, Root: "logout", DelayH: h})
 			}
@@ -607,7 +607,7 @@ func enumSingleFault(_ string, emit func(Case)) {
 				c.Status = st
 				emit(c)
 			}
-			for _, age := range []string{"half", "stale", "old", "future"} {
+			for _, age := range []string{"half", "stale", "old", "future", "far-future"} {
 				c := base
 				c.Age = age
 				emit(c)
@@ -634,7 +634,7 @@ var prop = &pbt.Prop[Case]{
 	Enums: []pbt.Enum[Case]{{Name: "single-fault-grid", Each: enumSingleFault}, {Name: "reconfigured-trust-and-issue-delays", Each: enumReconfigured}},
 	Assumptions: []string{
 		"validateLogoutResponse reads the real clock (time.Now): the freshness boundary is probed with margins of 30 minutes (MaxIssueDelay set to 1 h), so this check depends on the wall clock within that margin",
-		"future-dated responses are not judged",
+		"future-dated responses (issued half a MaxIssueDelay ahead of the SP clock) meet the freshness clause: must-accept",
 	},
 }
 
